@@ -136,11 +136,12 @@ theorem zip_fst_snd {β γ : Type} (l : List (β × γ)) : (l.map (·.1)).zip (l
   | nil => rfl
   | cons a l ih => simp [ih]
 
-/-- one shipped loss at ℝ with the domain on which it is a discrepancy measure (data side, prediction side) -/
+/-- one shipped loss at ℝ with the domain on which it is a discrepancy measure (data side, prediction side;
+predicates on the whole vector) -/
 structure LossSpec where
   fn : List ℝ → List ℝ → ℝ
-  domD : ℝ → Prop
-  domP : ℝ → Prop
+  domD : List ℝ → Prop
+  domP : List ℝ → Prop
 
 /-- the generated definitions, by the name they have in fit/losses.py -/
 noncomputable def lossReal : String → Option LossSpec
@@ -148,16 +149,32 @@ noncomputable def lossReal : String → Option LossSpec
   | "mean_squared" => some ⟨Gen.mean_squared, fun _ => True, fun _ => True⟩
   | "rmse" => some ⟨Gen.rmse, fun _ => True, fun _ => True⟩
   | "mae" => some ⟨Gen.mae, fun _ => True, fun _ => True⟩
-  | "mean_absolute_percentage" => some ⟨Gen.mean_absolute_percentage, fun x => x ≠ 0, fun _ => True⟩
-  | "mean_squared_logarithmic" => some ⟨Gen.mean_squared_logarithmic, fun x => -1 < x, fun y => -1 < y⟩
-  | "cosine_similarity" => some ⟨Gen.cosine_similarity, fun _ => True, fun _ => True⟩
+  | "mean_absolute_percentage" => some ⟨Gen.mean_absolute_percentage, fun d => ∀ x ∈ d, x ≠ 0, fun _ => True⟩
+  | "mean_squared_logarithmic" =>
+    some ⟨Gen.mean_squared_logarithmic, fun d => ∀ x ∈ d, -1 < x, fun p => ∀ y ∈ p, -1 < y⟩
+  | "cosine_similarity" => some ⟨Gen.cosine_similarity, fun d => ∃ x ∈ d, x ≠ 0, fun p => ∃ y ∈ p, y ≠ 0⟩
   | _ => none
 
-/-- the property for one shipped loss (as called by `_Settings.loss`), on its natural domain -/
+/-- zero-based discrepancy measure (as called by `_Settings.loss`), on its natural domain: never negative, and
+zero exactly when the prediction reproduces the data -/
 def GoodLoss (name : String) : Prop :=
-  ∃ (L : List ℝ → List ℝ → ℝ) (domD domP : ℝ → Prop), lossReal name = some ⟨L, domD, domP⟩ ∧
-    ∀ d p : List ℝ, d.length = p.length → (∀ x ∈ d, domD x) → (∀ y ∈ p, domP y) →
+  ∃ (L : List ℝ → List ℝ → ℝ) (domD domP : List ℝ → Prop), lossReal name = some ⟨L, domD, domP⟩ ∧
+    ∀ d p : List ℝ, d.length = p.length → domD d → domP p →
       0 ≤ L d p ∧ (L d p = 0 ↔ p = d)
 
+/-- the property's first clause for one shipped loss: on its domain no prediction scores below the prediction
+that reproduces the data -/
+def MinimalAtData (name : String) : Prop :=
+  ∃ (L : List ℝ → List ℝ → ℝ) (domD domP : List ℝ → Prop), lossReal name = some ⟨L, domD, domP⟩ ∧
+    ∀ d p : List ℝ, d.length = p.length → domD d → domP p → L d d ≤ L d p
+
+/-- a zero-based discrepancy measure is minimal at the data (when the data lie in the prediction domain too) -/
+theorem GoodLoss.minimal {name : String} (h : GoodLoss name)
+    (hdom : ∀ L domD domP, lossReal name = some ⟨L, domD, domP⟩ → ∀ d, domD d → domP d) : MinimalAtData name := by
+  obtain ⟨L, domD, domP, hL, hg⟩ := h
+  refine ⟨L, domD, domP, hL, fun d p hl hd hp => ?_⟩
+  have h1 := (hg d d rfl hd (hdom L domD domP hL d hd)).2.mpr rfl
+  rw [h1]
+  exact (hg d p hl hd hp).1
 
 end Mxl.C20
